@@ -338,6 +338,12 @@ class IncomingMessageHandler(IncomingMessageHandlerBase):
         except (ValueError, OverflowError) as err:
             raise InvalidMessageError(err, message) from err
 
+        if not 0 <= battery_level <= 100:  # noqa: PLR2004
+            raise InvalidMessageError(
+                ValueError(f"Battery level {battery_level} is not in range 0-100"),
+                message,
+            )
+
         gateway.nodes[message.node_id].battery_level = battery_level
         return message
 
